@@ -47,6 +47,8 @@ SmokeTerms == {
   TRValue(5, TRStr(1, StartM \o <<A>> \o EndM)), TRValue(5, Obj(1, {"SF"})), TRValue(5, Obj(1, {"ST", "SV"})), TRValue(5, Obj(1, {"REG"})), TRValue(5, Obj(1, {"ER", "NILP"})),
   TRValue(5, TStruct(9, <<TInt(1, 1), TSafe(3, TStr(2, P(2)))>>, <<FALSE, TRUE>>)), TRValue(5, TPtrTo(10, TStruct(9, <<TInt(1, 1)>>, <<FALSE>>))),
   TUnsafe(6, TRValue(5, TStr(1, P(1)))), TSafe(6, TRValue(5, TInt(1, 4))),
+  \* channels and funcs (printed as pointers)
+  TChan(1), TFunc(1), TSlice(9, <<TChan(1), TFunc(2)>>), TUnsafe(2, TChan(1)), TSafe(2, TFunc(1)), TStruct(9, <<TChan(1), TFunc(2)>>, <<FALSE, TRUE>>),
   \* reflect.Values obtained through an unexported field (not interfaceable)
   TRValueRO(5, TRStr(1, StartM \o <<A>> \o EndM \o <<A>>)), TRValueRO(5, TRBytes(1, <<A>> \o StartM \o <<A>> \o EndM)), TRValueRO(5, TStr(1, P(1))),
   TRValueRO(5, TInt(1, 9)), TRValueRO(5, TSStr(1, P(1))), TSafe(6, TRValueRO(5, TStr(1, P(1)))), TUnsafe(6, TRValueRO(5, TRStr(1, StartM \o <<A>> \o EndM))),
